@@ -192,6 +192,12 @@ func buildBatches(res *evid.Result, root string, thorough bool) []*batch {
 		}
 		f := writeModule(filepath.Join(b.dir, "src"), "p.go", src.String())
 		b.cases = []Case{{ID: "blocks/5000", Family: "function-blocks", Kind: "blocks", File: f, Params: sizes}}
+		// a function that crosses the limit between two revisions (within it on one side only)
+		for _, pr := range [][2]int{{4000, 6000}, {7000, 3000}, {5000, 5001}} {
+			fo := writeModule(filepath.Join(b.dir, fmt.Sprintf("one-%d-%d-old", pr[0], pr[1])), "p.go", fileHeader+genBlocks("Grow", pr[0]))
+			fn := writeModule(filepath.Join(b.dir, fmt.Sprintf("one-%d-%d-new", pr[0], pr[1])), "p.go", fileHeader+genBlocks("Grow", pr[1]))
+			b.cases = append(b.cases, Case{ID: fmt.Sprintf("blocks-one-side/%d-%d", pr[0], pr[1]), Family: "function-blocks", Kind: "oneside", Base: fo, File: fn, Params: []int{pr[0], pr[1]}})
+		}
 		saveBatch(b)
 	}
 	// (f) strings
@@ -848,6 +854,26 @@ func judgeBlocks(res *evid.Result, all []Rec) {
 		} else if len(r.FP) != 64 {
 			res.Violate("guard/max-function-blocks-rejects-within-limit", fmt.Sprintf("function with %d blocks (<= %d) was not fingerprinted: %q", r.Blocks, maxBlocks, r.FP),
 				replayOf(r.Family, map[string]any{"record": r}))
+		}
+	}
+	// one side beyond the limit: the pair must not be run through the structural matcher
+	for _, r := range all {
+		if r.Kind != "oneside" {
+			continue
+		}
+		res.Eval(1)
+		res.Distinct(r.Case)
+		summary = append(summary, fmt.Sprintf("%s: status=%s equivalence-tests=%d listed-ops=%d matched=%d err=%q", r.Case, r.FP, r.Equiv, r.Uses, r.NumFuncs, head(r.Err, 60)))
+		if r.Err != "" {
+			res.Inconcl(1)
+			continue
+		}
+		if r.Equiv > 0 || r.Uses > 0 || r.NumFuncs > 0 {
+			res.Violate("guard/one-side-oversized-function-processed", fmt.Sprintf("%s: the function exceeds %d blocks in one revision only, yet the diff ran the structural matcher on it (%d equivalence tests, %d matched nodes, %d listed operations)", r.Case, maxBlocks, r.Equiv, r.NumFuncs, r.Uses),
+				replayOf(r.Family, map[string]any{"record": r}))
+		}
+		if r.FP == "preserved" {
+			res.Violate("guard/one-side-oversized-function-preserved", fmt.Sprintf("%s: reported preserved although only one revision could be fingerprinted", r.Case), replayOf(r.Family, map[string]any{"record": r}))
 		}
 	}
 	res.Set("block_guard", summary)
